@@ -63,7 +63,7 @@ pub fn opening_pairs(case: &Case) -> Vec<Value> {
     let secs: std::collections::BTreeSet<String> = case.files.iter().flatten().map(|r| r.sec.clone()).collect();
     for sec in secs.iter().filter(|s| !case.opening.contains_key(*s)) {
         let rows = sorted_single_file(case, sec);
-        let a_case = Case { id: format!("{}/n", case.id), files: vec![rows.clone()], opening: Default::default(), tags: case.tags.clone(), hdr: Vec::new() };
+        let a_case = Case { id: format!("{}/n", case.id), files: vec![rows.clone()], opening: Default::default(), tags: case.tags.clone(), hdr: Vec::new(), raw: Vec::new() };
         let mut b_case = a_case.clone();
         b_case.id = format!("{}/o", case.id);
         b_case.opening.insert("OTHER.SEC".into(), (Num::S("17".into()), Num::S("1234.5".into())));
@@ -78,7 +78,7 @@ pub fn opening_pairs(case: &Case) -> Vec<Value> {
         if rows.is_empty() || n.dec().map(|d| d.is_zero()).unwrap_or(true) {
             continue;
         }
-        let a_case = Case { id: format!("{}/a", case.id), files: vec![rows.clone()], opening: [(sec.clone(), (n.clone(), c.clone()))].into_iter().collect(), tags: case.tags.clone(), hdr: Vec::new() };
+        let a_case = Case { id: format!("{}/a", case.id), files: vec![rows.clone()], opening: [(sec.clone(), (n.clone(), c.clone()))].into_iter().collect(), tags: case.tags.clone(), hdr: Vec::new(), raw: Vec::new() };
         let first = rows.iter().map(|r| r.sd.min(r.td)).min().unwrap();
         let mut buy = blank_row(sec, first - 40);
         buy.act = "Buy".into();
@@ -87,7 +87,7 @@ pub fn opening_pairs(case: &Case) -> Vec<Value> {
         buy.c = c.clone();
         let mut brow = vec![buy];
         brow.extend(rows.iter().cloned());
-        let b_case = Case { id: format!("{}/b", case.id), files: vec![brow], opening: Default::default(), tags: case.tags.clone(), hdr: Vec::new() };
+        let b_case = Case { id: format!("{}/b", case.id), files: vec![brow], opening: Default::default(), tags: case.tags.clone(), hdr: Vec::new(), raw: Vec::new() };
         let sa = ledger_segments(&a_case);
         let sb = ledger_segments(&b_case);
         if let (Some(a), Some(b)) = (seg_for(&sa, sec), seg_for(&sb, sec)) {
@@ -121,7 +121,7 @@ pub fn split_pairs(case: &Case, seed: u64) -> Vec<Value> {
         }
         let opening: std::collections::BTreeMap<String, (Num, Num)> =
             case.opening.iter().filter(|(s, _)| **s == sec).map(|(s, v)| (s.clone(), v.clone())).collect();
-        let a_case = Case { id: format!("{}/a", case.id), files: vec![rows.clone()], opening: opening.clone(), tags: case.tags.clone(), hdr: Vec::new() };
+        let a_case = Case { id: format!("{}/a", case.id), files: vec![rows.clone()], opening: opening.clone(), tags: case.tags.clone(), hdr: Vec::new(), raw: Vec::new() };
         let sa = ledger_segments(&a_case);
         let a = match seg_for(&sa, &sec) {
             Some(a) if a["status"] == "ok" => a.clone(),
@@ -182,7 +182,7 @@ pub fn split_pairs(case: &Case, seed: u64) -> Vec<Value> {
             if !representable {
                 continue;
             }
-            let b_case = Case { id: format!("{}/b{}", case.id, k), files: vec![brow], opening: opening.clone(), tags: case.tags.clone(), hdr: Vec::new() };
+            let b_case = Case { id: format!("{}/b{}", case.id, k), files: vec![brow], opening: opening.clone(), tags: case.tags.clone(), hdr: Vec::new(), raw: Vec::new() };
             let sb = ledger_segments(&b_case);
             if let Some(b) = seg_for(&sb, &sec) {
                 out.push(json!({"id": case.id, "kind": "split", "cls": "split", "a": a, "b": b, "k": k,
@@ -224,7 +224,7 @@ pub fn indep_pairs(case: &Case) -> Vec<Value> {
     for sec in &secs {
         let files: Vec<Vec<Row>> = case.files.iter().map(|f| f.iter().filter(|r| r.sec == *sec).cloned().collect::<Vec<Row>>()).filter(|f: &Vec<Row>| !f.is_empty()).collect();
         let opening = case.opening.iter().filter(|(s, _)| *s == sec).map(|(s, v)| (s.clone(), v.clone())).collect();
-        let part = Case { id: format!("{}/{}", case.id, sec), files, opening, tags: case.tags.clone(), hdr: Vec::new() };
+        let part = Case { id: format!("{}/{}", case.id, sec), files, opening, tags: case.tags.clone(), hdr: Vec::new(), raw: Vec::new() };
         let sp = ledger_segments(&part);
         if let (Some(a), Some(b)) = (seg_for(&sp, sec), seg_for(&whole, sec)) {
             if a["status"] != "skipped" && b["status"] != "skipped" {
@@ -246,7 +246,7 @@ pub fn indep_pairs(case: &Case) -> Vec<Value> {
 pub fn canonical_layout(case: &Case) -> Case {
     let mut rows: Vec<Row> = case.files.iter().flatten().cloned().collect();
     rows.sort_by(|a, b| (a.sd, &a.sec).cmp(&(b.sd, &b.sec)));
-    Case { id: format!("{}/canon", case.id), files: vec![rows], opening: case.opening.clone(), tags: case.tags.clone(), hdr: Vec::new() }
+    Case { id: format!("{}/canon", case.id), files: vec![rows], opening: case.opening.clone(), tags: case.tags.clone(), hdr: Vec::new(), raw: Vec::new() }
 }
 
 /// a random admissible re-layout: adjacent swaps that keep same-security same-day rows in order,
@@ -271,7 +271,7 @@ pub fn random_relayout(case: &Case, seed: u64) -> Case {
         files.last_mut().unwrap().push(r);
     }
     let hdr = files.iter().map(|_| rng.gen_range(0..6)).collect();
-    Case { id: format!("{}/relaid", case.id), files, opening: case.opening.clone(), tags: case.tags.clone(), hdr }
+    Case { id: format!("{}/relaid", case.id), files, opening: case.opening.clone(), tags: case.tags.clone(), hdr, raw: Vec::new() }
 }
 
 /// C07: the input as laid out versus its canonical layout
@@ -295,6 +295,166 @@ pub fn layout_pairs(case: &Case, seed: u64, randomise: bool) -> Vec<Value> {
     if sc.iter().all(|s| s["status"] == "ok" || s["status"] == "rejected") {
         if let Some(r) = aggsum_record(&given.id, "layout", &given, &[canon]) {
             out.push(r);
+        }
+    }
+    out
+}
+
+// ---------------------------------------------------------------------------------------------
+// C10: summary round trip
+// ---------------------------------------------------------------------------------------------
+fn tx_to_row(tx: &acb::portfolio::Tx) -> Row {
+    use acb::portfolio::TxActionSpecifics as A;
+    let mut r = blank_row(&tx.security, day_of(tx.settlement_date));
+    r.td = day_of(tx.trade_date);
+    r.af = if tx.affiliate.is_global() { String::new() } else { tx.affiliate.name().to_string() };
+    let money = |r: &mut Row, shares: rust_decimal::Decimal, aps: rust_decimal::Decimal, comm: rust_decimal::Decimal,
+                 cr: &acb::portfolio::CurrencyAndExchangeRate, ccr: &Option<acb::portfolio::CurrencyAndExchangeRate>| {
+        r.q = num(shares);
+        r.p = num(aps);
+        r.c = num(comm);
+        r.cur = cr.currency.to_string();
+        if !cr.is_default() {
+            r.r = num(*cr.exchange_rate);
+        }
+        if let Some(c) = ccr {
+            r.ccur = c.currency.to_string();
+            if !c.is_default() {
+                r.rc = num(*c.exchange_rate);
+            }
+        }
+    };
+    match &tx.action_specifics {
+        A::Buy(b) => {
+            r.act = "Buy".into();
+            money(&mut r, *b.shares, *b.amount_per_share, *b.commission, &b.tx_currency_and_rate, &b.separate_commission_currency);
+        }
+        A::Sell(b) => {
+            r.act = "Sell".into();
+            money(&mut r, *b.shares, *b.amount_per_share, *b.commission, &b.tx_currency_and_rate, &b.separate_commission_currency);
+            if let Some(s) = &b.specified_superficial_loss {
+                r.sfl = format!("{}{}", s.superficial_loss.normalize(), if s.force { "!" } else { "" });
+            }
+        }
+        A::Roc(x) => {
+            r.act = "RoC".into();
+            r.p = num(*x.amount_per_held_share);
+            r.cur = x.tx_currency_and_rate.currency.to_string();
+            if !x.tx_currency_and_rate.is_default() {
+                r.r = num(*x.tx_currency_and_rate.exchange_rate);
+            }
+        }
+        A::Sfla(x) => {
+            r.act = "SfLA".into();
+            r.q = num(*x.shares_affected);
+            r.p = num(*x.amount_per_share);
+        }
+        A::Split(x) => {
+            r.act = "Split".into();
+            r.split = x.ratio.to_string();
+        }
+    }
+    r
+}
+
+/// (a) the full history, (b) the summary CSV acb writes for `cut` (its literal text) followed by the
+/// original rows settling after `cut`
+pub fn summary_pairs(case: &Case, seed: u64) -> Vec<Value> {
+    use acb::app::{run_acb_app_summary_to_model, Options};
+    use acb::fx::io::testlib::new_test_rate_loader;
+    use acb::portfolio::io::tx_csv::write_txs_to_csv;
+    use acb::util::rw::{DescribedReader, WriteHandle};
+    let mut out = Vec::new();
+    let mut rng = StdRng::seed_from_u64(seed ^ 0x5c10 ^ case.id.len() as u64);
+    // (a summary replaces a history; how it would combine with --symbol-base is not part of C10)
+    let stripped;
+    let case = if case.opening.is_empty() {
+        case
+    } else {
+        let mut c = case.clone();
+        c.opening = Default::default();
+        stripped = c;
+        &stripped
+    };
+    let sa = ledger_segments(case);
+    if sa.is_empty() || sa.iter().any(|s| s["status"] != "ok") {
+        return out; // C10 speaks about error-free histories
+    }
+    let mut days: Vec<i64> = case.files.iter().flatten().map(|r| r.sd).collect();
+    days.sort();
+    days.dedup();
+    if days.is_empty() {
+        return out;
+    }
+    let mut cuts: Vec<i64> = Vec::new();
+    for _ in 0..3 {
+        let d = days[rng.gen_range(0..days.len())];
+        cuts.push(d + [0, 0, 0, 1, 5, 29, 30, -1][rng.gen_range(0..8)]);
+    }
+    cuts.sort();
+    cuts.dedup();
+    // far enough in the future for the "wait 60 days" warning not to matter
+    acb::util::date::set_todays_date_for_test(date_of(days[days.len() - 1] + 400));
+    for cut in cuts {
+        for annual in [false, true] {
+            let readers: Vec<DescribedReader> = (0..case.files.len()).map(|i| DescribedReader::from_string(format!("file{i}.csv"), case.file_text(i))).collect();
+            let mut opts = Options::default();
+            opts.split_annual_summary_gains = annual;
+            opts.summary_mode_latest_date = Some(date_of(cut));
+            let init = {
+                let mut m = std::collections::HashMap::new();
+                for (sec, (n, c)) in &case.opening {
+                    let n = acb::util::decimal::GreaterEqualZeroDecimal::try_from(n.dec().unwrap_or_default()).unwrap();
+                    let c = acb::util::decimal::GreaterEqualZeroDecimal::try_from(c.dec().unwrap_or_default()).unwrap();
+                    m.insert(sec.clone(), acb::portfolio::PortfolioSecurityStatus { security: sec.clone(), share_balance: n, all_affiliate_share_balance: n, total_acb: Some(c) });
+                }
+                m
+            };
+            let res = std::panic::catch_unwind(std::panic::AssertUnwindSafe(|| {
+                let (loader, _c, _r) = new_test_rate_loader(false);
+                async_std::task::block_on(run_acb_app_summary_to_model(date_of(cut), readers, init, opts, loader, WriteHandle::empty_write_handle()))
+            }));
+            let data = match res {
+                Ok(Ok(d)) => d,
+                Ok(Err(_)) | Err(_) => {
+                    out.push(json!({"id": case.id, "kind": "summary", "cls": "summary", "a": sa[0], "b": {"sec": "*", "rows": [], "deltas": [], "status": "error", "msg": "summary generation failed or panicked", "afs": [], "opening": {"has": false, "n": dzero(), "c": dzero()}},
+                                    "cut": cut, "annual": annual, "k": 0, "post": dzero(), "pre": dzero(), "perAff": false}));
+                    continue;
+                }
+            };
+            // the summary CSV exactly as `acb --summarize-before` prints it
+            let csv_txs: Vec<acb::portfolio::CsvTx> = data.txs.iter().cloned().map(acb::portfolio::CsvTx::from).collect();
+            let mut buf: Vec<u8> = Vec::new();
+            if !csv_txs.is_empty() && write_txs_to_csv(&csv_txs, &mut buf).is_err() {
+                continue;
+            }
+            let text = String::from_utf8_lossy(&buf).to_string();
+            let claimed: Vec<Row> = data.txs.iter().map(tx_to_row).collect();
+            let tail: Vec<Row> = case.files.iter().flatten().filter(|r| r.sd > cut).cloned().collect();
+            let mut files = Vec::new();
+            let mut raw = Vec::new();
+            if !claimed.is_empty() {
+                files.push(claimed);
+                raw.push(Some(text));
+            }
+            if !tail.is_empty() {
+                files.push(tail);
+                raw.push(None);
+            }
+            if files.is_empty() {
+                continue;
+            }
+            let b_case = Case { id: format!("{}/sum{}{}", case.id, cut, if annual { "a" } else { "s" }), files, opening: Default::default(), tags: case.tags.clone(), hdr: Vec::new(), raw };
+            let sb = ledger_segments(&b_case);
+            for a in &sa {
+                let sec = a["sec"].as_str().unwrap_or("");
+                let b = match seg_for(&sb, sec) {
+                    Some(b) => b.clone(),
+                    None => json!({"sec": sec, "rows": [], "deltas": [], "status": "ok", "msg": "", "afs": a["afs"], "opening": {"has": false, "n": dzero(), "c": dzero()}}),
+                };
+                out.push(json!({"id": case.id, "kind": "summary", "cls": "summary", "a": a, "b": b, "cut": cut, "annual": annual,
+                                "k": 0, "post": dzero(), "pre": dzero(), "perAff": false}));
+            }
         }
     }
     out
